@@ -44,8 +44,8 @@ Fixpoint tt_side_scan (hes all : list nat) (k : nat) (ba cb ac : nat) : option (
       else tt_side_scan t all (S k) ba cb ac
   end.
 
-Definition tt_side (s : mesh) (abc ba cb ac : nat) (t : ttopo) (cur : nat) : ttopo :=
-  if cur =? abc then t else
+Definition tt_side (s : mesh) (abc : option nat) (ba cb ac : nat) (t : ttopo) (cur : nat) : ttopo :=
+  if oeqb abc cur then t else
   let hes := halfface s cur in
   match tt_side_scan hes hes 0 ba cb ac with
   | None => t
@@ -53,8 +53,10 @@ Definition tt_side (s : mesh) (abc ba cb ac : nat) (t : ttopo) (cur : nat) : tto
       {| tt_vh := tt_vh t; tt_heh := upd (zi hel) (Some nxt) (tt_heh t); tt_hfh := upd (hfl_slot hfl) (Some cur) (tt_hfh t) |}
   end.
 
-Definition tt_make (s : mesh) (ch abc : nat) (a : option nat) : ub ttopo :=
-  let hes := halfface s abc in
+(* [abc = None]: the invalid halfface handle (the result of find_halfface for a vertex outside the cell); its
+   circulator reads face 0 reversed, i.e. halfface 1 *)
+Definition tt_make_o (s : mesh) (ch : nat) (abc : option nat) (a : option nat) : ub ttopo :=
+  let hes := halfface_o s abc in
   let n := length hes in
   if n =? 0 then None else                                 (* *abc_he_it of an invalid circulator *)
   do i <- match a with
@@ -66,11 +68,14 @@ Definition tt_make (s : mesh) (ch abc : nat) (a : option nat) : ub ttopo :=
   let ca := nth ((i + 2) mod n) hes 0 in
   let t0 := {| tt_vh := [Some (he_from s ab); Some (he_from s bc); Some (he_from s ca); None];
                tt_heh := upd (zi HEL_CA) (Some ca) (upd (zi HEL_BC) (Some bc) (upd (zi HEL_AB) (Some ab) (repeat None 6)));
-               tt_hfh := upd (hfl_slot HFL_ABC) (Some abc) (repeat None 4) |} in
+               tt_hfh := upd (hfl_slot HFL_ABC) abc (repeat None 4) |} in
   do hfhs <- rd (cells s) ch;
   let t1 := fold_left (tt_side s abc (opp ab) (opp bc) (opp ca)) hfhs t0 in
-  do ad <- oget (tt_heh t1) (zi HEL_AD);                   (* to_vertex_handle(invalid) otherwise *)
-  Some {| tt_vh := upd (zi VL_D) (Some (he_to s ad)) (tt_vh t1); tt_heh := tt_heh t1; tt_hfh := tt_hfh t1 |}.
+  (* vh_[D] = to_vertex_handle(ad()); an unset ad() (-1) reads as halfedge 1 *)
+  Some {| tt_vh := upd (zi VL_D) (Some (he_to_o s (oget (tt_heh t1) (zi HEL_AD)))) (tt_vh t1);
+          tt_heh := tt_heh t1; tt_hfh := tt_hfh t1 |}.
+
+Definition tt_make (s : mesh) (ch abc : nat) (a : option nat) : ub ttopo := tt_make_o s ch (Some abc) a.
 
 (* TetTopology(mesh, abc, a) *)
 Definition tt_make_hf (s : mesh) (abc : nat) (a : option nat) : ub ttopo :=
@@ -81,8 +86,7 @@ Definition tt_make_hf (s : mesh) (abc : nat) (a : option nat) : ub ttopo :=
 (* TetTopology(mesh, ch, a): the first halfface of the cell that contains a (TetTopology.cc:7-16) *)
 Definition tt_make_c_v (s : mesh) (ch a : nat) : ub ttopo :=
   do hfhs <- rd (cells s) ch;
-  do abc <- find (fun hf => memb a (hf_vertices s hf)) hfhs;   (* assert(false); return {} -> invalid halfface *)
-  tt_make s ch abc (Some a).
+  tt_make_o s ch (find (fun hf => memb a (hf_vertices s hf)) hfhs) (Some a).   (* not found: "assert(false); return {}" *)
 
 (* TetTopology(mesh, ch) *)
 Definition tt_make_c (s : mesh) (ch : nat) : ub ttopo :=
